@@ -97,6 +97,12 @@ public:
             if (!m_stopping && !backlog)
                 break;
 
+            // Events posted while no QCoreApplication existed were discarded; if one has been
+            // created since, nothing would ever tell the idle logger thread about their messages
+            if (!m_stopping && m_worker && m_processing.loadAcquire() == 0) {
+                QCoreApplication::postEvent(m_worker, new LogEvent());
+            }
+
             locker.unlock();
             QTLOGGER_VERIF_POINT("oth.reset.drain");
             QThread::msleep(10);
@@ -106,7 +112,10 @@ public:
         // The logger thread may itself be logging (a Qt warning, a sink that logs) and must not
         // block on this mutex while we wait for it to finish: from here on process() only queues
         // the messages, and the mutex is released until the thread is gone
-        m_stopping = true;
+        {
+            QMutexLocker queueLocker(&m_queueMutex);
+            m_stopping = true;
+        }
         locker.unlock();
 
         QTLOGGER_VERIF_POINT("oth.reset.before_quit");
@@ -127,7 +136,10 @@ public:
         m_thread->deleteLater();
         m_thread.clear();
         m_worker = nullptr;
-        m_stopping = false;
+        {
+            QMutexLocker queueLocker(&m_queueMutex);
+            m_stopping = false;
+        }
 
         // Messages the logger thread did not get to (its events are discarded once the
         // application object is gone; messages logged while it was stopping are only queued)
@@ -172,13 +184,15 @@ private:
         }
     };
 
-    // Runs the wrapped handler for the oldest queued message; false when the queue is empty
-    bool processQueued()
+    // Runs the wrapped handler for the oldest queued message; false when the queue is empty.
+    // The logger thread does not start on a message any more once it is being stopped: those
+    // messages are delivered by resetOwnThread(), which must not wait for it longer than needed
+    bool processQueued(bool inOwnThread = false)
     {
         QSharedPointer<LogMessage> lmsg;
         {
             QMutexLocker queueLocker(&m_queueMutex);
-            if (m_queue.isEmpty())
+            if (m_queue.isEmpty() || (inOwnThread && m_stopping))
                 return false;
             lmsg = m_queue.dequeue();
             m_processing.storeRelease(1);
@@ -200,7 +214,9 @@ private:
         void customEvent(QEvent *event) override
         {
             if (event->type() == LogEvent::type()) {
-                m_handler->processQueued();
+                // All of them: the events of earlier messages may have been discarded (see
+                // resetOwnThread()), one event per message would then lag behind for good
+                while (m_handler->processQueued(true)) { }
             }
         }
 
@@ -212,7 +228,8 @@ private:
     QPointer<QThread> m_thread;
     Worker *m_worker = nullptr;
     QMutex m_mutex;
-    bool m_stopping = false; // resetOwnThread() is waiting for the thread to finish
+    bool m_stopping = false; // resetOwnThread() is waiting for the thread to finish (written
+                             // under m_mutex and m_queueMutex)
     QAtomicInt m_pendingCount;
     QAtomicInt m_processing; // a dequeued message is inside the wrapped handler
     QQueue<QSharedPointer<LogMessage>> m_queue;
